@@ -357,7 +357,7 @@ def grammar_boundaries(m, rng):
         out += ["$3", "$3$", "$3$$", "$3$$$", "$3$junk", "$3$$" + "0" * 32, "$3$$" + "g" * 32, "$3$" + S(8) + "$", "$3x"]
     elif m in ("bcrypt", "bcrypt_a", "bcrypt_x", "bcrypt_y"):
         p = PREFIX[m]
-        for c in ("03", "04", "05", "06", "10", "4", "004", "32", "99", "", "0 4", "4$", "x4", "4x"):
+        for c in ("03", "04", "05", "06", "07", "08", "09", "10", "4", "004", "32", "99", "", "0 4", "4$", "x4", "4x", "0x", "0b", "4.", "+4", "-4", " 4"):
             out.append(p + c + "$" + salt(rng, 22, BF64))
         for n in (0, 1, 20, 21, 22, 23, 30, 53):
             out.append(p + "04$" + salt(rng, n, BF64))
